@@ -126,6 +126,52 @@ def lambda_entries(fn_node: ast.AST, flowir_key: str, translate: Optional[Dict[s
     return out
 
 
+def _is_none_identity(t: ast.AST) -> bool:
+    if isinstance(t, ast.Compare) and len(t.ops) == 1 and isinstance(t.ops[0], (ast.Is, ast.IsNot)):
+        return isinstance(t.comparators[0], ast.Constant) and t.comparators[0].value is None
+    if isinstance(t, ast.BoolOp):
+        return all(_is_none_identity(v) for v in t.values)
+    if isinstance(t, ast.UnaryOp) and isinstance(t.op, ast.Not):
+        return _is_none_identity(t.operand)
+    return False
+
+
+def _dict_keys(e: ast.AST) -> Optional[frozenset]:
+    if isinstance(e, ast.Dict):
+        return frozenset(source.src(k) for k in e.keys if k is not None)
+    return None
+
+
+def value_dependent_drops(conv: ast.AST) -> List[ast.AST]:
+    """Conditionals in a converter that choose, by a test on the value other than None-identity, between results with
+    different key sets."""
+    args = conv.args.args
+    vname = args[1].arg if len(args) > 1 else "value"
+
+    def mentions_value(t: ast.AST) -> bool:
+        return any(isinstance(x, ast.Name) and x.id == vname for x in ast.walk(t))
+    bad: List[ast.AST] = []
+    body_nodes = [conv.body] if isinstance(conv, ast.Lambda) else list(conv.body)
+    for b in body_nodes:
+        for n in ast.walk(b):
+            if isinstance(n, ast.IfExp) and mentions_value(n.test) and not _is_none_identity(n.test):
+                ka, kb = _dict_keys(n.body), _dict_keys(n.orelse)
+                if (ka is not None or kb is not None) and ka != kb:
+                    bad.append(n.test)
+            if isinstance(n, ast.If) and mentions_value(n.test) and not _is_none_identity(n.test):
+                def rets(stmts):
+                    out = []
+                    for st in stmts:
+                        for x in ast.walk(st):
+                            if isinstance(x, ast.Return):
+                                out.append(_dict_keys(x.value) if x.value is not None else frozenset())
+                    return out
+                ra, rb = rets(n.body), rets(n.orelse)
+                if (ra or rb) and set(ra) != set(rb):
+                    bad.append(n.test)
+    return bad
+
+
 def dict_literal(e: ast.AST) -> Optional[Dict[str, ast.AST]]:
     if isinstance(e, ast.Dict) and all(const_str(k) is not None for k in e.keys):
         return {const_str(k): v for k, v in zip(e.keys, e.values)}
@@ -365,6 +411,8 @@ def run(ctx) -> None:
     ctx.rule("C19.R1-writer-reader-agreement", "each written (path, key, kind) has a reader branch testing the key, storing into the same path with a matching converter")
     ctx.rule("C19.R2-translate-maps-inverse", "the writer's FlowIR->DOSINI map is the inverse of Dosini._translate_map on its options")
     ctx.rule("C19.R3-sections", "status/output section writers and readers use the same keys")
+    ctx.rule("C19.R5-writer-total", "a converter writes its key for every value that is not None: the only value tests that may "
+                                    "select an arm without the key are 'is None' / 'is not None' (0, False, '' and [] are values)")
     ctx.rule("C19.R4-reader-without-writer", "options parsed but never written are exactly the frozen list")
 
     m = ctx.repo.module(DOSINI)
@@ -414,6 +462,49 @@ def run(ctx) -> None:
                    "option %s is written as %s but read back with a %s converter" % ("/".join(path), kind, "/".join(sorted(kinds))),
                    construct=cons)
     ctx.floor("C19.R1-writer-reader-agreement", n, 40, "written options")
+
+    # R5: no value-dependent drop
+    seen_conv = set()
+    n5 = 0
+    for path, entries in sorted(wt.items()):
+        for (dk, kind, node) in entries:
+            conv = node
+            if id(conv) in seen_conv or not isinstance(conv, (ast.Lambda, ast.FunctionDef, ast.Name)):
+                continue
+            seen_conv.add(id(conv))
+            if isinstance(conv, ast.Name):
+                defs = [f for q in ("Dosini._comp_resource_request_to_dict", "Dosini._comp_resource_manager_to_str",
+                                    "Dosini._comp_command_to_dict", "Dosini._comp_workflow_attributes_to_dict")
+                        for f in m.func(q).body if isinstance(f, ast.FunctionDef) and f.name == conv.id
+                        and f.lineno <= conv.lineno < (m.func(q).end_lineno or 10**9)]
+                if not defs or id(defs[0]) in seen_conv:
+                    continue
+                conv = defs[0]
+                seen_conv.add(id(conv))
+            n5 += 1
+            bad = value_dependent_drops(conv)
+            ctx.ob("C19.R5-writer-total", conv, not bad,
+                   "the converter of %s writes '%s' for every non-None value" % ("/".join(path), dk) if not bad else
+                   "the converter of %s omits '%s' depending on the value (%s): a legitimate falsy value (0, False, '', []) is "
+                   "not written and the reloaded component falls back to the default" % ("/".join(path), dk, short(bad[0], 60)),
+                   construct="converter %s -> %s is total" % ("/".join(path), dk))
+    tdd = m.func("Dosini._translate_dict_to_dict")
+    ctx.analysed(tdd)
+    filt = [c for c in ast.walk(tdd) if isinstance(c, ast.DictComp) and any(g.ifs for g in c.generators)]
+    for c in filt:
+        conds = [t for g in c.generators for t in g.ifs]
+        ok = all(_is_none_identity(t) for t in conds)
+        ctx.ob("C19.R5-writer-total", c, ok,
+               "_translate_dict_to_dict filters out only None values" if ok else
+               "_translate_dict_to_dict drops options by a test other than 'is not None' (%s): falsy values such as 0 or "
+               "False are not written" % short(conds[0], 60), construct="_translate_dict_to_dict value filter")
+    for nn in source.walk_own(tdd, include_nested=True):
+        if isinstance(nn, ast.If) and any(isinstance(x, ast.Name) and x.id in ("value", "converted") for x in ast.walk(nn.test)) \
+                and not _is_none_identity(nn.test):
+            ctx.ob("C19.R5-writer-total", nn, False,
+                   "_translate_dict_to_dict applies a conversion only under the value test %s" % short(nn.test, 60),
+                   construct="_translate_dict_to_dict conditional conversion")
+    ctx.floor("C19.R5-writer-total", n5, 22, "writer converters")
 
     # R2
     rm = m.func("Dosini._comp_resource_manager_to_str")
